@@ -889,10 +889,10 @@ func (g *corpusGen) floodFamilies(full bool) {
 		}
 		ask := asks[k%len(asks)]
 		g.add(proto.Call{Fn: proto.FnValidate, List: l, Fam: g.fam, Tag: "flood"})
-		g.add(proto.Call{Fn: proto.FnSatisfies, Expr: ask, List: l, Fam: g.fam, Tag: "flood"})                      // not in the list
-		g.add(proto.Call{Fn: proto.FnSatisfies, Expr: l[n-1], List: l, Fam: g.fam, Tag: "flood"})                   // the last entry
-		g.add(proto.Call{Fn: proto.FnSatisfies, Expr: ask + " OR " + l[n/2], List: l, Fam: g.fam, Tag: "flood"})    // second alternative, middle entry
-		g.add(proto.Call{Fn: proto.FnSatisfies, Expr: ask + " AND " + l[0], List: l, Fam: g.fam, Tag: "flood"})     // one of two missing
+		g.add(proto.Call{Fn: proto.FnSatisfies, Expr: ask, List: l, Fam: g.fam, Tag: "flood"})                   // not in the list
+		g.add(proto.Call{Fn: proto.FnSatisfies, Expr: l[n-1], List: l, Fam: g.fam, Tag: "flood"})                // the last entry
+		g.add(proto.Call{Fn: proto.FnSatisfies, Expr: ask + " OR " + l[n/2], List: l, Fam: g.fam, Tag: "flood"}) // second alternative, middle entry
+		g.add(proto.Call{Fn: proto.FnSatisfies, Expr: ask + " AND " + l[0], List: l, Fam: g.fam, Tag: "flood"})  // one of two missing
 		or := strings.Join(l[:120], " OR ")
 		g.add(proto.Call{Fn: proto.FnExtract, Expr: or, Fam: g.fam, Tag: "flood"})
 		g.add(proto.Call{Fn: proto.FnSatisfies, Expr: or, List: []string{ask}, Fam: g.fam, Tag: "flood"})
